@@ -44,7 +44,7 @@ def wfStep (line : String) : String :=
   | some text =>
     match parseEntries text.toList with
     | .ok es =>
-      match (es.zipIdx.find? fun (e, _) => !Unparse.wfEntry e) with
+      match (es.zipIdx.find? fun (e, _) => !Unparse.wfEntry (Unparse.canonEntry e)) with
       | none => "wf"
       | some (_, i) => s!"notwf {i}"
     | _ => "noparse"
